@@ -16,6 +16,8 @@ import SpVerif.Ops.Verificator
 import SpVerif.Ops.Prefix
 import SpVerif.Ops.DirectiveFixed
 import SpVerif.Ops.FileData
+import SpVerif.Ops.MsgToUser
+import SpVerif.Ops.Factory
 /-!
 # Line-protocol driver: one JSON object per input line (`{"op": …, …}`), one JSON result per output line.
 `{"ok": …}` / `{"err": "<category>"}` are model results; `{"bad": "<msg>"}` is a protocol error.
@@ -41,6 +43,8 @@ def allOps : List (String × Handler) := []
   ++ Ops.Prefix.ops
   ++ Ops.DirectiveFixed.ops
   ++ Ops.FileData.ops
+  ++ Ops.MsgToUser.ops
+  ++ Ops.Factory.ops
 
 def table : Std.HashMap String Handler := Std.HashMap.ofList allOps
 
